@@ -41,6 +41,8 @@ func TestCheck(t *testing.T) {
 		"conditional leaf (resource released while the rerunner lives), one planned retry (cache purged by thunder), PurgeCache between runs, InvalidateAfter / timer resources 1.5-5 ms, paced writes of both styles, Stop half-way; unfired cells are retried with up to 2 more schedules. " +
 		"RANDOM: 1-4 rerunners x 1-5 shared cells, plans with cached children depth<=2 drawn from pools (same key twice under one parent, grandchild key also used by the root), concurrent children, conditional leaves, reactive.InvalidateAfter 1-5 ms, timer resources built like InvalidateAfter but with a tracked Cleanup, " +
 		"PurgeCache inside runs (before/after children) and from writer goroutines, <=3 planned retries and at most one fatal error per rerunner (also inside cached children), Stops at seeded moments, yield intensity 30-60%. " +
+		"About a quarter of the cells of random/matrix scenarios follow the fetch-then-register discipline instead: the reader fetches (version, resource) as one pair and registers the fetched resource afterwards; writes to such cells always replace the resource and Invalidate the old one. " +
+		"STORM leg (fetch-then-register window, also for cached children): 4-12 rerunners reading cell 0 directly and through 0-10 concurrently evaluated cached children; in a chain of 8-16 storm writes the readers that already fetched the current (version, resource) park at a harness gate in front of AddDependency, the write installs the next version, calls Invalidate on the fetched resource - which often has no registered dependant yet - and opens the gate. " +
 		"Oracles: (i) at quiescence after the last write (<=50 runs per rerunner) the final output of every live rerunner embeds only current versions, directly and through cached children; " +
 		"(ii) after all rerunners are stopped and the system is quiescent every resource ever passed to AddDependency had its Cleanup callback run exactly once (second call recorded with both stacks; zero = leak); " +
 		"(iii) no Cleanup while the monitor's conservative reference model still has a live holder: a computation that registered the resource (directly, or a cached child adopted before it could have been released) and has not been superseded, failed or stopped, with no zero-holder moment since the first registration. " +
@@ -56,7 +58,8 @@ func TestCheck(t *testing.T) {
 	M := len(matrix)
 	variants := run.N(4, 250)
 	nRandom := run.N(700, 120000)
-	total := M*variants + nRandom
+	nStorm := run.N(150, 8000)
+	total := M*variants + nRandom + nStorm
 	agg := vlib.NewHitAgg()
 	pf := reactx.Profile{Cache: true}
 	opt := reactx.Options{CheckCleanup: true}
@@ -133,6 +136,15 @@ func TestCheck(t *testing.T) {
 			return
 		}
 		j := i - M*variants
+		if j >= nRandom {
+			j -= nRandom
+			sc := reactx.GenStorm(run.Rand("storm", j))
+			fmt.Printf("CASE %d storm %d\n", i, j)
+			res := reactx.Run(sc, opt, agg)
+			run.Case(fmt.Sprintf("%s|%x", sc.Shape(), res.Trace), res.Stats["registrations_released_with_an_invalidate"] > 0)
+			report(i, sc, res)
+			return
+		}
 		r := run.Rand("random", j)
 		sc := reactx.GenRandom(r, pf)
 		fmt.Printf("CASE %d random %d\n", i, j)
